@@ -20,11 +20,10 @@ type statsManager struct {
 
 func (s *statsManager) getClientStats(clientID string) (stats *ClientStats) {
 	if stats = s.clientStats[clientID]; stats == nil {
-		subStats, _ := s.subStatsReader.GetClientStats(clientID)
-
-		stats = &ClientStats{
-			SubscriptionStats: subStats,
-		}
+		// Do not ask the subscription store here: the callers hold clientMu, and some of them run inside
+		// a subscription-store iteration (read lock held) — a pending Subscribe then deadlocks the
+		// nested RLock. GetClientStats fills in SubscriptionStats when somebody reads them.
+		stats = &ClientStats{}
 		s.clientStats[clientID] = stats
 	}
 	return stats
@@ -482,17 +481,19 @@ func (s *statsManager) GetGlobalStats() GlobalStats {
 // GetClientStats returns the client statistic information for given client id.
 func (s *statsManager) GetClientStats(clientID string) (ClientStats, bool) {
 	s.clientMu.Lock()
-	defer s.clientMu.Unlock()
-	if stats := s.clientStats[clientID]; stats == nil {
+	stats := s.clientStats[clientID]
+	if stats == nil {
+		s.clientMu.Unlock()
 		return ClientStats{}, false
-	} else {
-		s, _ := s.subStatsReader.GetClientStats(clientID)
-		return ClientStats{
-			PacketStats:       *stats.PacketStats.copy(),
-			MessageStats:      *stats.MessageStats.copy(),
-			SubscriptionStats: s,
-		}, true
 	}
+	rs := ClientStats{
+		PacketStats:  *stats.PacketStats.copy(),
+		MessageStats: *stats.MessageStats.copy(),
+	}
+	s.clientMu.Unlock()
+	// the subscription store is asked after clientMu has been released (lock order)
+	rs.SubscriptionStats, _ = s.subStatsReader.GetClientStats(clientID)
+	return rs, true
 
 }
 
